@@ -48,7 +48,7 @@ ASSUMPTIONS = [
   'branch) or a shape outside the proof only (slices whose bounds are not plain integer expressions, widths >= 1024); '
   'F4, N2, N3, N5 were repaired in /repo and the model follows the repaired rules',
 ]
-RULE = ('streams: typed (type-directed terms, no injected defects), boolop (comparison results / Bool-typed terms as left and right operands against explicitly sized w-bit operands), desc (descending constant ranges whose loop variable meets a w-bit operand: first value fits / only the last fits), noisy (same with width/literal defects injected at each choice point), '
+RULE = ('streams: typed (type-directed terms, no injected defects), tmpseq (straight-line re-assignments of a temporary: literal/explicit/other width, then a narrower/equal/wider use), boolop (comparison results / Bool-typed terms as left and right operands against explicitly sized w-bit operands), desc (descending constant ranges whose loop variable meets a w-bit operand: first value fits / only the last fits), noisy (same with width/literal defects injected at each choice point), '
         'wild (unconstrained small terms, mostly rejected), one labelled stream per known hole (F12, N1, N4) and per repaired one (F4, N2, N3, N5: must now be rejected / clean), directed corpus; '
         'signal values boundary-biased; non-trivial = elaborated and checked by the real passes; distinct = distinct case tuple')
 
@@ -626,6 +626,18 @@ def corpus():
     mk(30, [[0, 3, 'in'], [1, 3, 'out']], [['for', 0, 8, 0, -1, [['asg', S(1, 3), ['bin', 'add', S(0, 3), ['lv', 0]]]]]]),
     mk(31, [[0, 4, 'out']], [['for', 0, 16, 0, -4, [['asg', S(0, 4), ['lv', 0]]]]]),
     mk(32, [[0, 3, 'in'], [1, 3, 'out']], [['for', 0, 8, 0, -1, [['ifs', ['cmp', 'eq', S(0, 3), ['lv', 0]], [['asg', S(1, 3), S(0, 3)]], []]]]]),
+    # straight-line re-assignment of a temporary: type and explicitness of the LAST assignment count
+    mk(40, [[0, 1, 'in'], [1, 8, 'out']], [['tasg', 0, N(1)], ['tasg', 0, S(0, 1)], ['asg', S(1, 8), ['tmp', 0]]]),
+    mk(41, [[0, 8, 'in'], [1, 8, 'in'], [2, 8, 'out']],
+       [['tasg', 0, N(0)], ['tasg', 0, ['cmp', 'lt', S(0, 8), S(1, 8)]], ['asg', S(2, 8), ['bin', 'add', S(0, 8), ['tmp', 0]]]]),
+    mk(42, [[0, 3, 'in'], [1, 8, 'in'], [2, 1, 'out']],
+       [['tasg', 0, N(5)], ['tasg', 0, S(0, 3)], ['asg', S(2, 1), ['cmp', 'eq', S(1, 8), ['tmp', 0]]]]),
+    mk(43, [[0, 3, 'in'], [1, 8, 'in'], [2, 8, 'out']],
+       [['tasg', 0, S(0, 3)], ['tasg', 0, N(5)], ['asg', S(2, 8), ['bin', 'add', S(1, 8), ['tmp', 0]]]]),
+    mk(44, [[0, 3, 'in'], [1, 3, 'out']], [['tasg', 0, N(5)], ['tasg', 0, S(0, 3)], ['asg', S(1, 3), ['tmp', 0]]]),
+    mk(45, [[0, 3, 'in'], [1, 4, 'in'], [2, 3, 'out']], [['tasg', 0, S(0, 3)], ['tasg', 0, S(1, 4)], ['asg', S(2, 3), ['tmp', 0]]]),
+    mk(46, [[0, 1, 'in'], [1, 8, 'out']],
+       [['for', 0, 0, 2, 1, [['tasg', 0, ['lv', 0]], ['tasg', 0, S(0, 1)], ['asg', S(1, 8), ['tmp', 0]]]]]),
     # a comparison result (rdt.Bool, one bit) against an 8-bit / 1-bit operand, on either side
     mk(34, io8, [['asg', S(3, 8), ['bin', 'band', S(0, 8), ['cmp', 'lt', S(0, 8), S(1, 8)]]]]),
     mk(35, io8, [['asg', S(3, 8), ['bin', 'band', ['cmp', 'lt', S(0, 8), S(1, 8)], S(0, 8)]]]),
@@ -659,6 +671,7 @@ def run(ck):
     batch(per // 2, lambda u: G.gen_wild(rng, u))
     batch(12 if quick else 30, lambda u: G.gen_desc(rng, u))
     batch(12 if quick else 30, lambda u: G.gen_boolop(rng, u))
+    batch(14 if quick else 36, lambda u: G.gen_tmpseq(rng, u))
     for which in ('F4', 'F12', 'N1', 'N2', 'N3', 'N4', 'N5'):
       batch(6 if quick else 20, lambda u: G.gen_finding(rng, u, which))
     if len(ck.breaks) > 50 or sum(1 for v in ck.violations if v.signature.get('finding') not in FINDING_OF_STREAM.values()) > 20: break
